@@ -471,3 +471,24 @@ def spec_execute(schema, document, variables, resolvers, root_value=None, operat
         return ("request-error",)
     data, errors, calls = ex.run()
     return ("ok", data, errors, calls)
+
+
+def landings(data, paths):
+    """The set of positions nulled by errors: for every error path, the place where its null
+    lands in ``data`` after non-null propagation (an error below an already nulled ancestor --
+    which a cancelled sibling may or may not get to report -- lands on that ancestor)."""
+    out = set()
+    for path in paths:
+        cur = data
+        landing = ()
+        if cur is not None:
+            for seg in path:
+                try:
+                    cur = cur[seg]
+                except (KeyError, IndexError, TypeError):
+                    cur = None
+                landing = landing + (seg,)
+                if cur is None:
+                    break
+        out.add(landing)
+    return sorted(out, key=repr)
